@@ -295,104 +295,3 @@ fn st_fhm_details_3() {
     fhm_details::<3>()
 }
 
-// ---- measurement probes (not registered for any property) ------------------------------------------------
-#[kani::proof]
-#[kani::unwind(10)]
-#[kani::stub(alloc::fmt::format, fmt_stub)]
-#[kani::stub(std::hash::RandomState::new, random_state_stub)]
-fn probe_map_get_other() {
-    let mut map = HeaderMap::new();
-    map.insert(Status::GRPC_STATUS, HeaderValue::from_static("5"));
-    assert!(map.get(Status::GRPC_MESSAGE).is_none());
-    assert!(map.get(Status::GRPC_STATUS).is_some());
-    core::mem::forget(map);
-}
-#[kani::proof]
-#[kani::unwind(10)]
-#[kani::stub(alloc::fmt::format, fmt_stub)]
-#[kani::stub(std::hash::RandomState::new, random_state_stub)]
-fn probe_fhm_concrete() {
-    let mut map = HeaderMap::new();
-    map.insert(Status::GRPC_STATUS, HeaderValue::from_static("5"));
-    let got = Status::from_header_map(&map);
-    assert!(got.is_some());
-    core::mem::forget(got);
-    core::mem::forget(map);
-}
-
-#[kani::proof]
-#[kani::unwind(13)]
-#[kani::stub(alloc::fmt::format, fmt_stub)]
-#[kani::stub(std::hash::RandomState::new, random_state_stub)]
-fn probe_map_clone() {
-    let mut map = HeaderMap::new();
-    map.insert(Status::GRPC_STATUS, HeaderValue::from_static("5"));
-    let c = map.clone();
-    assert!(c.len() == 1);
-    core::mem::forget(map);
-    core::mem::forget(c);
-}
-#[kani::proof]
-#[kani::unwind(13)]
-#[kani::stub(alloc::fmt::format, fmt_stub)]
-#[kani::stub(std::hash::RandomState::new, random_state_stub)]
-fn probe_map_remove() {
-    let mut map = HeaderMap::new();
-    map.insert(Status::GRPC_STATUS, HeaderValue::from_static("5"));
-    map.remove(Status::GRPC_MESSAGE);
-    assert!(map.len() == 1);
-    map.remove(Status::GRPC_STATUS);
-    assert!(map.len() == 0);
-    core::mem::forget(map);
-}
-#[kani::proof]
-#[kani::unwind(13)]
-#[kani::stub(alloc::fmt::format, fmt_stub)]
-#[kani::stub(std::hash::RandomState::new, random_state_stub)]
-fn probe_map_get3() {
-    let mut map = HeaderMap::new();
-    map.insert(Status::GRPC_STATUS, HeaderValue::from_static("5"));
-    let a = map.get(Status::GRPC_STATUS).is_some();
-    let b = map.get(Status::GRPC_MESSAGE).is_some();
-    let c = map.get(Status::GRPC_STATUS_DETAILS).is_some();
-    assert!(a && !b && !c);
-    core::mem::forget(map);
-}
-
-#[kani::proof]
-#[kani::unwind(5)]
-#[kani::stub(alloc::fmt::format, fmt_stub)]
-fn probe_pct_decode2() {
-    let raw: [u8; 2] = kani::any();
-    let r = percent_decode(&raw[..]).decode_utf8().map(|c| c.to_string());
-    if raw[0] < 0x80 && raw[1] < 0x80 && raw[0] != b'%' && raw[1] != b'%' {
-        assert!(r.is_ok());
-    }
-    core::mem::forget(r);
-}
-#[kani::proof]
-#[kani::unwind(5)]
-#[kani::stub(alloc::fmt::format, fmt_stub)]
-fn probe_b64_decode2() {
-    let raw: [u8; 2] = kani::any();
-    let r = crate::util::base64::STANDARD.decode(&raw[..]);
-    if raw[0] == b'!' {
-        assert!(r.is_err());
-    }
-    core::mem::forget(r);
-}
-#[kani::proof]
-#[kani::unwind(6)]
-#[kani::stub(alloc::fmt::format, fmt_stub)]
-fn probe_clone_remove3() {
-    let mut map = HeaderMap::new();
-    map.insert(Status::GRPC_STATUS, HeaderValue::from_static("5"));
-    let mut c = map.clone();
-    c.remove(Status::GRPC_STATUS);
-    c.remove(Status::GRPC_MESSAGE);
-    c.remove(Status::GRPC_STATUS_DETAILS);
-    assert!(c.len() == 0);
-    let md = MetadataMap::from_headers(c);
-    core::mem::forget(map);
-    core::mem::forget(md);
-}
